@@ -124,7 +124,8 @@ def parse_field_values_to_cinfo(field_values: FieldValues) -> version.V2Calendar
     >>> (cinfo.year_y, cinfo.week_w, cinfo.year_y, cinfo.week_u,cinfo.year_g, cinfo.week_v)
     (2021, 0, 2021, 1, 2020, 53)
     """
-    fvals = field_values
+    # NOTE: If a part is optional, field_values[<field>] may be None
+    fvals = {field: value for field, value in field_values.items() if value is not None}
     date: typ.Optional[dt.date] = None
 
     year_y: MaybeInt = int(fvals['year_y']) if 'year_y' in fvals else None
